@@ -5,6 +5,7 @@ import H264.PpsExact
 import H264.SliceConverse
 import H264.SpsRangesAll
 import H264.History
+import H264.Accum
 /-! # Size ledger (C03, "never over-allocates"): everything a model component builds or keeps is bounded by the size of
 the input it was built from, or by a constant
 
@@ -92,6 +93,47 @@ theorem next_payload_le (r r' : Sei.Reader) (ty : Nat) (pl : List UInt8)
 theorem scratch_request_le (name : String) (fin : IoKind) (bs : List UInt8) (len : Nat) (rest : List UInt8)
     (h : Sei.readU32 name fin bs 0 = .ok (len, rest)) : len ≤ 255 * bs.length := by
   have := readU32_le name fin bs 0 len rest h; omega
+
+/-- the NAL accumulator: one delivery lengthens the buffer by at most the bytes delivered -/
+theorem frag_buf_le (a : Accum.Acc) (bufs : List (List UInt8)) (fin : Bool) (d : Accum.Invocation → Accum.Interest) :
+    (Accum.frag a bufs fin d).1.buf.length ≤ a.buf.length + bufs.flatten.length := by
+  unfold Accum.frag
+  by_cases hi : a.interest ≠ .ignore
+  · rw [if_pos hi]
+    by_cases hb : a.buf ≠ []
+    · rw [if_pos hb]
+      cases fin with
+      | true => simp [Accum.init]
+      | false =>
+        simp only [Bool.false_eq_true, ↓reduceIte, Bool.not_false]
+        split <;> simp only [List.length_append] <;> omega
+    · rw [if_neg hb]
+      cases bufs with
+      | nil => simp
+      | cons b bs =>
+        cases fin with
+        | true => simp [Accum.init]
+        | false =>
+          simp only [Bool.false_eq_true, ↓reduceIte, Bool.not_false]
+          split <;> simp only [List.length_append, List.flatten_cons] <;> omega
+  · rw [if_neg hi]
+    cases fin <;> simp [Accum.init]
+
+/-- … so after any history the buffer holds at most the bytes delivered (`reserve(len)` + `extend_from_slice` never
+exceed the input), whatever the handler answered -/
+theorem acc_buffer_le_input (a : Accum.Acc) (steps : List Accum.Step) (tr : List Accum.Invocation) :
+    (Accum.run a steps tr).1.buf.length ≤ a.buf.length + (steps.map fun s => s.bufs.flatten.length).sum := by
+  induction steps generalizing a tr with
+  | nil => simp [Accum.run]
+  | cons s ss ih =>
+    have h1 := frag_buf_le a s.bufs s.fin (fun _ => s.answer)
+    have h2 := ih (Accum.frag a s.bufs s.fin fun _ => s.answer).1
+      (match (Accum.frag a s.bufs s.fin fun _ => s.answer).2 with | some i => tr ++ [i] | none => tr)
+    have hrun : Accum.run a (s :: ss) tr = Accum.run (Accum.frag a s.bufs s.fin fun _ => s.answer).1 ss
+      (match (Accum.frag a s.bufs s.fin fun _ => s.answer).2 with | some i => tr ++ [i] | none => tr) := by
+      rfl
+    rw [hrun, List.map_cons, List.sum_cons]
+    omega
 
 /-! ### (4) parameter-set tables: `resize_with(index + 1)` with a checked index -/
 
